@@ -27,6 +27,32 @@ Theorem C15_result_refuted :
 Proof. exact reserved_names_refuted. Qed.
 Print Assumptions C15_result_refuted.
 
+(* locals IS globals (exec at module level without mappings, or with only a globals mapping): one mapping M, in which the scaffold
+   parks its two names while the program runs and which `global k; k = v` writes.  Afterwards M holds, name by name, what the
+   reference's globals hold (the scaffold names are gone); the result holds the reference's locals for the names that are
+   parameters, and for the supplied names that are not (declared global by the program, or no possible parameter name) their
+   FINAL value in the mapping *)
+Theorem C15_same_mapping : forall M p, user_map M -> user_prog p -> wf_prog p -> raises_after p = None ->
+  exists res M', exec_same M p = (Some res, M') /\
+    (forall k, aget M' k = aget (snd (spec_same M p)) k) /\
+    (forall k, aget res k =
+       if is_param (gdecl p) k then aget (fst (spec_same M p)) k
+       else if usable k && existsb (N.eqb k) (keys M) then aget (snd (spec_same M p)) k else None).
+Proof. exact exec_same_refines. Qed.
+Print Assumptions C15_same_mapping.
+Theorem C15_same_mapping_raises : forall M p i, user_map M -> user_prog p -> raises_after p = Some i ->
+  exists M', exec_same M p = (None, M') /\
+    forall k, aget M' k = aget (snd (run_ops (firstn i (ops p)) (filter (fun kv => is_param (gdecl p) (fst kv)) M, M))) k.
+Proof. exact exec_same_raises. Qed.
+Print Assumptions C15_same_mapping_raises.
+(* `counter = 0` at module level, then exec("global counter; counter = 7; y = 3") with no mappings: counter is 7 in the module
+   and in the result, y is in the result only *)
+Example C15_same_nonvacuous :
+  let M : assoc := [(10%N, 0%Z); (12%N, 5%Z)] in
+  let p := {| ops := [GBind 10%N 7%Z; Bind 11%N 3%Z]; raises_after := None; gdecl := [10%N] |} in
+  exec_same M p = (Some [(12%N, 5%Z); (11%N, 3%Z); (10%N, 7%Z)], [(12%N, 5%Z); (10%N, 7%Z)]).
+Proof. vm_compute. reflexivity. Qed.
+
 Theorem C15_raises : forall L G p i, user_map L -> user_map G -> user_prog p -> raises_after p = Some i ->
   exec_model L G p = (None, L, snd (run_ops (firstn i (ops p)) (L, G))).
 Proof. exact exec_raises. Qed.
